@@ -115,7 +115,8 @@ func c04Probe(a lib.Args, res *lib.Result) error {
 	var cases []c04Case
 	ops := []string{"GetObject", "HeadObject", "PutObject", "DeleteObject", "CopyObject-source", "CopyObject-dest", "PutObjectTagging", "GetObjectTagging",
 		"CreateMultipartUpload", "DeleteObjects-key", "ListObjects-prefix", "ListObjects-marker", "AbortMultipartUpload-uploadId", "UploadPart-uploadId",
-		"GetObject-versionId", "DeleteObject-versionId", "GetObject-versionId@v", "DeleteObject-versionId@v", "DeleteObjects-versionId@v", "DeleteObjects-versionId-dup@v", "bucket-name", "ChangeBucketOwner-bucket", "PutObjectLegalHold", "GetObjectAttributes", "ListParts-uploadId", "UploadPartCopy-source"}
+		"GetObject-versionId", "DeleteObject-versionId", "GetObject-versionId@v", "DeleteObject-versionId@v", "DeleteObjects-versionId@v", "DeleteObjects-versionId-dup@v", "bucket-name", "ChangeBucketOwner-bucket", "PutObjectLegalHold", "GetObjectAttributes", "ListParts-uploadId", "UploadPartCopy-source",
+		"CopyObject-source-versionId@v", "UploadPartCopy-source-versionId@v", "DeleteObjects-key+versionId", "DeleteObjects-key+versionId@v"}
 	r := lib.NewRand(a.Seed).Fork()
 	if only := os.Getenv("C04_OPS"); only != "" {
 		ops = strings.Split(only, ",")
@@ -212,6 +213,13 @@ func c04Probe(a lib.Args, res *lib.Result) error {
 		case "UploadPartCopy-source":
 			req.Method, req.Path, req.Query = "PUT", "/abk/mp", "uploadId="+upid+"&partNumber=2"
 			req.Set("x-amz-copy-source", "abk/"+name)
+		case "CopyObject-source-versionId@v":
+			// the version id of the copy source carries the traversal (the header is percent-decoded by the server)
+			req.Method, req.Path = "PUT", "/abk/copied"
+			req.Set("x-amz-copy-source", "vbk/own?versionId="+name)
+		case "UploadPartCopy-source-versionId@v":
+			req.Method, req.Path, req.Query = "PUT", "/abk/mp", "uploadId="+upid+"&partNumber=2"
+			req.Set("x-amz-copy-source", "vbk/own?versionId="+name)
 		case "CopyObject-dest":
 			req.Method = "PUT"
 			req.Set("x-amz-copy-source", "abk/own")
@@ -232,6 +240,18 @@ func c04Probe(a lib.Args, res *lib.Result) error {
 			b.WriteString("<Delete><Object><Key>")
 			xmlEscape(&b, rawName)
 			b.WriteString("</Key></Object></Delete>")
+			req.Body = b.Bytes()
+		case "DeleteObjects-key+versionId", "DeleteObjects-key+versionId@v":
+			// a hostile key next to a well-formed version id in one batch entry
+			bk := "/abk"
+			if strings.HasSuffix(c.op, "@v") {
+				bk = "/vbk"
+			}
+			req.Method, req.Path, req.Query = "POST", bk, "delete"
+			var b bytes.Buffer
+			b.WriteString("<Delete><Object><Key>")
+			xmlEscape(&b, rawName)
+			b.WriteString("</Key><VersionId>" + []string{"null", "01ARZ3NDEKTSV4RRFFQ69G5FAV"}[i%2] + "</VersionId></Object></Delete>")
 			req.Body = b.Bytes()
 		case "ListObjects-prefix":
 			req.Path, req.Query = "/abk", "prefix="+name
